@@ -42,6 +42,7 @@ PROP = [  # (keyword in commit subject, property, signature of the finding it re
  ("zeroed the other three", "C09", "frame:_InheritsDimensions.left->_InheritsDimensions.top; top->left; width->height; height->width"),
  ("without p:sldSz", "C09", "accept-breaks-getter:Presentation.slide_width; accept-breaks-getter:Presentation.slide_height"),
  ("beyond the range of a double", "C11", "rej:XsdDouble / ST_AxisUnit / ST_Angle:int-overflow (to_xml(10**400) raised OverflowError)"),
+ ("took the part name of an existing slide", "C13", "save-reopen:duplicate-slide-partname (also the add_slide half of C06 unlisted-slide-partname-collision)"),
  ("EMF images", "C15", "emf-stored-as-wmf"), ("TIFF without resolution", "C15", "tiff-without-resolution-sized-at-1dpi"),
 ]
 k = json.load(open(os.path.join(V, "known_findings.json")))
